@@ -955,4 +955,496 @@ theorem handleQuery_silent (s : State) (now : Nat) (p : RxPkt) (i : MyIntf)
         (fun b q _ => answerQuestion_silent _ _ _ _ _ b q h)
     simp [this]
 
+/-! ### unregister, goodbye, shutdown -/
+
+theorem alookup_isSome_iff {κ α : Type} [DecidableEq κ] (k : κ) (l : List (κ × α)) :
+    (alookup k l).isSome = true ↔ ∃ v, (k, v) ∈ l := by
+  constructor
+  · intro h
+    obtain ⟨v, hv⟩ := Option.isSome_iff_exists.mp h
+    exact ⟨v, alookup_mem hv⟩
+  · rintro ⟨v, hv⟩
+    cases hl : alookup k l with
+    | some _ => rfl
+    | none =>
+      exfalso
+      induction l with
+      | nil => simp at hv
+      | cons e l ih =>
+        obtain ⟨k', v'⟩ := e
+        by_cases h1 : k' = k
+        · simp [alookup, h1] at hl
+        · simp only [alookup, h1, ↓reduceIte] at hl
+          rcases List.mem_cons.mp hv with heq | hin
+          · exact h1 (Prod.mk.inj heq).1.symm
+          · exact ih hin hl
+
+theorem goodbyePkt_spec {svc : Service} {i : MyIntf} {v4 : Bool} {p : Packet} (h : goodbyePkt svc i v4 = some p) :
+    addrsOn svc i v4 ≠ [] ∧ p.id = 0 ∧ p.flags = FLAGS_RESPONSE ∧ p.questions = [] ∧ p.authorities = [] ∧ p.additionals = [] ∧
+    p.answers = ptrRecords svc svc.fullname 0 ++
+      [{ name := svc.fullname, ty := TYPE_SRV, flush := true, ttl := 0, rdata := .srv 0 0 svc.port svc.host },
+       { name := svc.fullname, ty := TYPE_TXT, flush := true, ttl := 0, rdata := .txt svc.txt }] ++
+      (addrsOn svc i v4).map fun ip =>
+        { name := svc.host, ty := addrType ip, flush := true, ttl := 0, rdata := addrRData ip } := by
+  unfold goodbyePkt at h
+  split at h
+  · exact absurd h (by simp)
+  · rename_i hne
+    cases h
+    exact ⟨hne, rfl, rfl, rfl, rfl, rfl, rfl⟩
+
+theorem goodbyePkt_ttl_zero {svc : Service} {i : MyIntf} {v4 : Bool} {p : Packet} (h : goodbyePkt svc i v4 = some p) :
+    ∀ a ∈ p.answers, a.ttl = 0 ∧ a.newName = none := by
+  intro a ha
+  rw [(goodbyePkt_spec h).2.2.2.2.2.2] at ha
+  simp only [ptrRecords, List.mem_append, List.mem_cons, List.mem_map, List.not_mem_nil, or_false] at ha
+  rcases ha with ((rfl | hsub) | rfl | rfl) | ⟨ip, _, rfl⟩
+  · exact ⟨rfl, rfl⟩
+  · cases hs : svc.sub with
+    | none => simp [hs] at hsub
+    | some sub =>
+      simp only [hs, List.mem_cons, List.not_mem_nil, or_false] at hsub
+      subst hsub
+      exact ⟨rfl, rfl⟩
+  · exact ⟨rfl, rfl⟩
+  · exact ⟨rfl, rfl⟩
+  · exact ⟨rfl, rfl⟩
+
+theorem goodbyePkt_isSome (svc : Service) (i : MyIntf) (v4 : Bool) :
+    (goodbyePkt svc i v4).isSome = true ↔ addrsOn svc i v4 ≠ [] := by
+  unfold goodbyePkt
+  split <;> simp_all
+
+/-- membership in the list of goodbye packets: exactly one per interface and family with an
+    in-subnet address -/
+theorem mem_goodbyes {intfs : List MyIntf} {svc : Service} {idx : Nat} {v4 : Bool} {p : Packet} :
+    (idx, v4, p) ∈ goodbyes intfs svc ↔ ∃ i ∈ intfs, i.index = idx ∧ goodbyePkt svc i v4 = some p := by
+  simp only [goodbyes, goodbyesOn, List.mem_flatMap, List.mem_map, List.mem_append]
+  constructor
+  · rintro ⟨i, hi, ⟨v, q⟩, hm, heq⟩
+    obtain ⟨h1, h2, h3⟩ : i.index = idx ∧ v = v4 ∧ q = p := by
+      simp only [Prod.mk.injEq] at heq; exact heq
+    subst h1 h2 h3
+    refine ⟨i, hi, rfl, ?_⟩
+    rcases hm with hm | hm
+    · cases hg : goodbyePkt svc i true with
+      | none => simp [hg] at hm
+      | some q' =>
+        simp only [hg, List.mem_cons, Prod.mk.injEq, List.not_mem_nil, or_false] at hm
+        rw [hm.1, hg, hm.2]
+    · cases hg : goodbyePkt svc i false with
+      | none => simp [hg] at hm
+      | some q' =>
+        simp only [hg, List.mem_cons, Prod.mk.injEq, List.not_mem_nil, or_false] at hm
+        rw [hm.1, hg, hm.2]
+  · rintro ⟨i, hi, hidx, hg⟩
+    refine ⟨i, hi, (v4, p), ?_, by simp [hidx]⟩
+    cases v4
+    · right; simp [hg]
+    · left; simp [hg]
+
+/-! ### the answer of `handle_query`, declaratively -/
+
+/-- is the record kept, i.e. not suppressed by a known answer of the query? -/
+def kept (known : List Wire.Rec) (a : RR) : Bool := !suppressedBy a known
+
+/-- the PTR answer a service owes to a PTR question: its type / subtype PTR, or the
+    meta-query PTR, if the service is announced on the interface -/
+def ptrRule (i : MyIntf) (reg : Registry) (v4 : Bool) (qname : BList) (svc : Service) : List RR :=
+  if !svc.announcedOn i.index then []
+  else if svc.matchesType qname then
+    (if addrsOn svc i v4 = [] then []
+     else [{ name := svc.ty, ty := TYPE_PTR, flush := false, ttl := TTL_OTHER, rdata := .ptr (reg.resolveName svc.fullname) }])
+  else if qname = META_QUERY then
+    [{ name := qname, ty := TYPE_PTR, flush := false, ttl := TTL_OTHER, rdata := .ptr svc.ty }]
+  else []
+
+/-- the additionals that come with a (not suppressed) type / subtype PTR answer: subtype PTR,
+    SRV, TXT, the addresses of the querier's family inside the interface's subnet -/
+def ptrAdditionals (known : List Wire.Rec) (i : MyIntf) (reg : Registry) (v4 : Bool) (qname : BList) (svc : Service) : List RR :=
+  if svc.announcedOn i.index && svc.matchesType qname && !(addrsOn svc i v4).isEmpty &&
+     kept known { name := svc.ty, ty := TYPE_PTR, flush := false, ttl := TTL_OTHER, rdata := .ptr (reg.resolveName svc.fullname) } then
+    (match svc.sub with
+     | some sub => [{ name := sub, ty := TYPE_PTR, flush := false, ttl := TTL_OTHER,
+                      rdata := .ptr (reg.resolveName svc.fullname) : RR }]
+     | none => []) ++
+    [{ name := reg.resolveName svc.fullname, ty := TYPE_SRV, flush := true, ttl := TTL_HOST,
+       rdata := .srv 0 0 svc.port (reg.resolveName svc.host) },
+     { name := reg.resolveName svc.fullname, ty := TYPE_TXT, flush := true, ttl := TTL_OTHER, rdata := .txt svc.txt }] ++
+    (addrsOn svc i v4).map fun ip =>
+      { name := reg.resolveName svc.host, ty := addrType ip, flush := true, ttl := TTL_HOST, rdata := addrRData ip }
+  else []
+
+/-- the address answers a service owes to an A / AAAA / ANY question on its host name -/
+def addrRule (i : MyIntf) (reg : Registry) (qname : BList) (qtype : Nat) (svc : Service) : List RR :=
+  if !svc.announcedOn i.index then []
+  else if lower (reg.resolveName svc.host) != lower qname then []
+  else
+    ((if qtype == TYPE_A || qtype == TYPE_ANY then addrsOn svc i true else []) ++
+     (if qtype == TYPE_AAAA || qtype == TYPE_ANY then addrsOn svc i false else [])).map fun ip =>
+      { name := reg.resolveName svc.host, ty := addrType ip, flush := true, ttl := TTL_HOST, rdata := addrRData ip }
+
+/-- the service an instance-name question is about (full name compared lower-cased) -/
+def instanceOf (services : List (BList × Service)) (i : MyIntf) (reg : Registry) (v4 : Bool) (qname : BList) : Option Service :=
+  match services.find? (fun e => reg.resolveName e.1 == lower qname) with
+  | some (_, svc) => if svc.announcedOn i.index && !(addrsOn svc i v4).isEmpty then some svc else none
+  | none => none
+
+/-- SRV / TXT answers to SRV / TXT / ANY on the instance name, under the name as asked -/
+def instRule (qname : BList) (qtype : Nat) : Option Service → List RR
+  | none => []
+  | some svc =>
+    (if qtype == TYPE_SRV || qtype == TYPE_ANY then
+      [{ name := qname, ty := TYPE_SRV, flush := true, ttl := TTL_HOST, rdata := .srv 0 0 svc.port svc.host : RR }] else []) ++
+    (if qtype == TYPE_TXT || qtype == TYPE_ANY then
+      [{ name := qname, ty := TYPE_TXT, flush := true, ttl := TTL_OTHER, rdata := .txt svc.txt : RR }] else [])
+
+/-- the address additionals of an SRV answer -/
+def instAdditionals (i : MyIntf) (v4 : Bool) (qtype : Nat) : Option Service → List RR
+  | none => []
+  | some svc =>
+    if qtype == TYPE_SRV then
+      (addrsOn svc i v4).map fun ip =>
+        { name := svc.host, ty := addrType ip, flush := true, ttl := TTL_HOST, rdata := addrRData ip }
+    else []
+
+/-- the answers the statement asks for, for one question (before known-answer suppression) -/
+def specAnswers (services : List (BList × Service)) (i : MyIntf) (reg : Registry) (v4 : Bool) (q : Wire.Question) : List RR :=
+  if q.ty == TYPE_PTR then services.flatMap fun e => ptrRule i reg v4 q.name e.2
+  else
+    (if q.ty == TYPE_A || q.ty == TYPE_AAAA || q.ty == TYPE_ANY then services.flatMap fun e => addrRule i reg q.name q.ty e.2 else []) ++
+    instRule q.name q.ty (instanceOf services i reg v4 q.name)
+
+/-- the additionals for one question -/
+def specAdditionals (known : List Wire.Rec) (services : List (BList × Service)) (i : MyIntf) (reg : Registry) (v4 : Bool)
+    (q : Wire.Question) : List RR :=
+  if q.ty == TYPE_PTR then services.flatMap fun e => ptrAdditionals known i reg v4 q.name e.2
+  else instAdditionals i v4 q.ty (instanceOf services i reg v4 q.name)
+
+theorem addAnswer_answers (r : Resp) (known : List Wire.Rec) (a : RR) :
+    (r.addAnswer known a).answers = r.answers ++ [a].filter (kept known) ∧ (r.addAnswer known a).additionals = r.additionals := by
+  unfold Resp.addAnswer kept
+  split <;> simp_all
+
+theorem foldl_addAnswer (known : List Wire.Rec) (l : List RR) (r : Resp) :
+    (l.foldl (fun r a => r.addAnswer known a) r).answers = r.answers ++ l.filter (kept known) ∧
+    (l.foldl (fun r a => r.addAnswer known a) r).additionals = r.additionals := by
+  induction l generalizing r with
+  | nil => simp
+  | cons a l ih =>
+    simp only [List.foldl_cons]
+    obtain ⟨h1, h2⟩ := ih (r.addAnswer known a)
+    rw [h1, h2, (addAnswer_answers r known a).1, (addAnswer_answers r known a).2]
+    simp only [List.filter_cons, List.filter_nil, List.append_assoc, and_true]
+    congr 1
+    split <;> simp
+
+theorem answerPtr_spec (known : List Wire.Rec) (i : MyIntf) (reg : Registry) (v4 : Bool) (qname : BList) (r : Resp) (svc : Service) :
+    (answerPtr known i reg v4 qname r svc).answers = r.answers ++ (ptrRule i reg v4 qname svc).filter (kept known) ∧
+    (answerPtr known i reg v4 qname r svc).additionals = r.additionals ++ ptrAdditionals known i reg v4 qname svc := by
+  unfold answerPtr ptrRule ptrAdditionals
+  by_cases ha : svc.announcedOn i.index = true
+  · by_cases hm : svc.matchesType qname = true
+    · simp only [ha, hm, Bool.not_true, Bool.false_eq_true, ↓reduceIte, Bool.true_and]
+      unfold addAnswerWithAdditionals
+      by_cases hne : addrsOn svc i v4 = []
+      · simp [hne]
+      · simp only [hne, ↓reduceIte]
+        split
+        · rename_i hs
+          simp [hs, kept]
+        · rename_i hs
+          simp [hs, kept, hne, List.append_assoc] <;> rfl
+    · simp only [ha, hm, Bool.not_true, Bool.false_eq_true, ↓reduceIte, Bool.true_and, Bool.false_and, List.append_nil]
+      by_cases hq : qname = META_QUERY
+      · simp only [hq, ↓reduceIte]
+        exact addAnswer_answers r known _
+      · simp [hq]
+  · simp [ha]
+
+theorem answerAddr_spec (known : List Wire.Rec) (i : MyIntf) (reg : Registry) (qname : BList) (qtype : Nat) (r : Resp) (svc : Service) :
+    (answerAddr known i reg qname qtype r svc).answers = r.answers ++ (addrRule i reg qname qtype svc).filter (kept known) ∧
+    (answerAddr known i reg qname qtype r svc).additionals = r.additionals := by
+  unfold answerAddr addrRule
+  split
+  · simp
+  · split
+    · simp
+    · have := foldl_addAnswer known
+        (((if qtype == TYPE_A || qtype == TYPE_ANY then addrsOn svc i true else []) ++
+          (if qtype == TYPE_AAAA || qtype == TYPE_ANY then addrsOn svc i false else [])).map fun ip =>
+            ({ name := reg.resolveName svc.host, ty := addrType ip, flush := true, ttl := TTL_HOST, rdata := addrRData ip } : RR)) r
+      rw [List.foldl_map] at this
+      exact this
+
+theorem foldl_services_spec (f : Resp → Service → Resp) (rule adds : Service → List RR) (known : List Wire.Rec)
+    (hf : ∀ r svc, (f r svc).answers = r.answers ++ (rule svc).filter (kept known) ∧ (f r svc).additionals = r.additionals ++ adds svc)
+    (services : List (BList × Service)) (r : Resp) :
+    (services.foldl (fun r e => f r e.2) r).answers = r.answers ++ (services.flatMap fun e => rule e.2).filter (kept known) ∧
+    (services.foldl (fun r e => f r e.2) r).additionals = r.additionals ++ services.flatMap fun e => adds e.2 := by
+  induction services generalizing r with
+  | nil => simp
+  | cons e l ih =>
+    simp only [List.foldl_cons, List.flatMap_cons, List.filter_append]
+    obtain ⟨h1, h2⟩ := ih (f r e.2)
+    rw [h1, h2, (hf r e.2).1, (hf r e.2).2]
+    simp [List.append_assoc]
+
+theorem condAdd_spec (c : Bool) (r : Resp) (known : List Wire.Rec) (a : RR) :
+    (if c = true then r.addAnswer known a else r).answers = r.answers ++ (if c = true then [a] else []).filter (kept known) ∧
+    (if c = true then r.addAnswer known a else r).additionals = r.additionals := by
+  cases c
+  · simp
+  · simpa using addAnswer_answers r known a
+
+theorem addAnswerOfService_spec (known : List Wire.Rec) (qname : BList) (qtype : Nat) (svc : Service) (addrs : List Ip) (r : Resp) :
+    (addAnswerOfService known qname qtype svc addrs r).answers = r.answers ++ (instRule qname qtype (some svc)).filter (kept known) ∧
+    (addAnswerOfService known qname qtype svc addrs r).additionals = r.additionals ++
+      (if (qtype == TYPE_SRV) = true then
+        addrs.map fun ip => ({ name := svc.host, ty := addrType ip, flush := true, ttl := TTL_HOST, rdata := addrRData ip } : RR)
+       else []) := by
+  unfold addAnswerOfService instRule
+  simp only []
+  have h1 := condAdd_spec (qtype == TYPE_SRV || qtype == TYPE_ANY) r known
+    { name := qname, ty := TYPE_SRV, flush := true, ttl := TTL_HOST, rdata := .srv 0 0 svc.port svc.host }
+  have h2 := condAdd_spec (qtype == TYPE_TXT || qtype == TYPE_ANY)
+    (if (qtype == TYPE_SRV || qtype == TYPE_ANY) = true then
+      r.addAnswer known { name := qname, ty := TYPE_SRV, flush := true, ttl := TTL_HOST, rdata := .srv 0 0 svc.port svc.host }
+     else r) known
+    { name := qname, ty := TYPE_TXT, flush := true, ttl := TTL_OTHER, rdata := .txt svc.txt }
+  split
+  · simp only [h2.1, h2.2, h1.1, h1.2, List.filter_append, List.append_assoc, and_self]
+  · simp only [h2.1, h2.2, h1.1, h1.2, List.filter_append, List.append_assoc, List.append_nil, and_self]
+
+theorem answerInstance_spec (known : List Wire.Rec) (services : List (BList × Service)) (i : MyIntf) (reg : Registry)
+    (v4 : Bool) (qname : BList) (qtype : Nat) (r : Resp) :
+    (answerInstance known services i reg v4 qname qtype r).answers =
+      r.answers ++ (instRule qname qtype (instanceOf services i reg v4 qname)).filter (kept known) ∧
+    (answerInstance known services i reg v4 qname qtype r).additionals =
+      r.additionals ++ instAdditionals i v4 qtype (instanceOf services i reg v4 qname) := by
+  unfold answerInstance instanceOf
+  split
+  · rename_i hf
+    simp [hf, instRule, instAdditionals]
+  · rename_i k svc hf
+    simp only [hf]
+    by_cases ha : svc.announcedOn i.index = true
+    · by_cases hne : addrsOn svc i v4 = []
+      · simp [ha, hne, instRule, instAdditionals]
+      · have hne' : (addrsOn svc i v4).isEmpty = false := by simpa using hne
+        simp only [ha, hne, hne', Bool.not_true, Bool.false_eq_true, ↓reduceIte, Bool.not_false, Bool.and_self]
+        have := addAnswerOfService_spec known qname qtype svc (addrsOn svc i v4) r
+        simpa [instAdditionals] using this
+    · simp [ha, instRule, instAdditionals]
+
+/-- `handle_query`'s loop body equals the declarative rule: the answers are the rule's records
+    that no known answer suppresses, the additionals the rule's additionals -/
+theorem answerQuestion_spec (known : List Wire.Rec) (services : List (BList × Service)) (i : MyIntf) (reg : Registry)
+    (v4 : Bool) (r : Resp) (q : Wire.Question) :
+    (answerQuestion known services i reg v4 r q).answers = r.answers ++ (specAnswers services i reg v4 q).filter (kept known) ∧
+    (answerQuestion known services i reg v4 r q).additionals = r.additionals ++ specAdditionals known services i reg v4 q := by
+  unfold answerQuestion specAnswers specAdditionals
+  by_cases hp : (q.ty == TYPE_PTR) = true
+  · simp only [hp, ↓reduceIte]
+    exact foldl_services_spec (answerPtr known i reg v4 q.name) (ptrRule i reg v4 q.name) (ptrAdditionals known i reg v4 q.name)
+      known (answerPtr_spec known i reg v4 q.name) services r
+  · simp only [hp, Bool.false_eq_true, ↓reduceIte]
+    by_cases ha : (q.ty == TYPE_A || q.ty == TYPE_AAAA || q.ty == TYPE_ANY) = true
+    · simp only [ha, ↓reduceIte]
+      have h1 := foldl_services_spec (answerAddr known i reg q.name q.ty) (addrRule i reg q.name q.ty) (fun _ => [])
+        known (fun r svc => by simpa using answerAddr_spec known i reg q.name q.ty r svc) services r
+      have h2 := answerInstance_spec known services i reg v4 q.name q.ty
+        (services.foldl (fun r e => answerAddr known i reg q.name q.ty r e.2) r)
+      rw [h2.1, h2.2, h1.1, h1.2]
+      simp [List.filter_append, List.append_assoc]
+    · simp only [ha, Bool.false_eq_true, ↓reduceIte, List.nil_append]
+      exact answerInstance_spec known services i reg v4 q.name q.ty r
+
+theorem answerAll_spec (known : List Wire.Rec) (services : List (BList × Service)) (i : MyIntf) (reg : Registry)
+    (v4 : Bool) (qs : List Wire.Question) (r : Resp) :
+    (qs.foldl (answerQuestion known services i reg v4) r).answers =
+      r.answers ++ (qs.flatMap (specAnswers services i reg v4)).filter (kept known) ∧
+    (qs.foldl (answerQuestion known services i reg v4) r).additionals =
+      r.additionals ++ qs.flatMap (specAdditionals known services i reg v4) := by
+  induction qs generalizing r with
+  | nil => simp
+  | cons q qs ih =>
+    simp only [List.foldl_cons, List.flatMap_cons, List.filter_append]
+    obtain ⟨h1, h2⟩ := ih (answerQuestion known services i reg v4 r q)
+    rw [h1, h2, (answerQuestion_spec known services i reg v4 r q).1, (answerQuestion_spec known services i reg v4 r q).2]
+    simp [List.append_assoc]
+
+/-! ### constants and link-locality of every response record -/
+
+/-- TTL 4500 s and no cache-flush bit for PTR, TTL 4500 s with the bit for TXT, TTL 120 s with
+    the bit for SRV and address records; an address record carries an address of the service
+    that lies in the subnet of one of the receiving interface's addresses -/
+def RecordOk (i : MyIntf) (a : RR) : Prop :=
+  (a.ty = TYPE_PTR ∧ a.ttl = TTL_OTHER ∧ a.flush = false) ∨
+  (a.ty = TYPE_TXT ∧ a.ttl = TTL_OTHER ∧ a.flush = true) ∨
+  (a.ty = TYPE_SRV ∧ a.ttl = TTL_HOST ∧ a.flush = true) ∨
+  (∃ ip, a.ty = addrType ip ∧ a.rdata = addrRData ip ∧ a.ttl = TTL_HOST ∧ a.flush = true ∧
+     ∃ x ∈ i.addrs, Intf.validIpOnIntf ip x.1 x.2 = true)
+
+theorem addrsOn_valid {svc : Service} {i : MyIntf} {v4 : Bool} {ip : Ip} (h : ip ∈ addrsOn svc i v4) :
+    ip ∈ svc.addrs ∧ Intf.isV4 ip = v4 ∧ ∃ x ∈ i.addrs, Intf.validIpOnIntf ip x.1 x.2 = true := by
+  simpa [addrsOn, Intf.addrsOnIntf, List.mem_filter] using h
+
+theorem addrRecord_ok (i : MyIntf) (svc : Service) (v4 : Bool) (name : BList) (ip : Ip) (h : ip ∈ addrsOn svc i v4) :
+    RecordOk i { name := name, ty := addrType ip, flush := true, ttl := TTL_HOST, rdata := addrRData ip } :=
+  Or.inr (Or.inr (Or.inr ⟨ip, rfl, rfl, rfl, rfl, (addrsOn_valid h).2.2⟩))
+
+theorem ptrRule_ok {i : MyIntf} {reg : Registry} {v4 : Bool} {qname : BList} {svc : Service} {a : RR}
+    (h : a ∈ ptrRule i reg v4 qname svc) : RecordOk i a := by
+  unfold ptrRule at h
+  repeat' split at h
+  all_goals simp only [List.mem_cons, List.not_mem_nil, or_false] at h
+  all_goals first
+    | (subst h; exact Or.inl ⟨rfl, rfl, rfl⟩)
+    | exact absurd h (by simp)
+
+theorem ptrAdditionals_ok {known : List Wire.Rec} {i : MyIntf} {reg : Registry} {v4 : Bool} {qname : BList} {svc : Service}
+    {a : RR} (h : a ∈ ptrAdditionals known i reg v4 qname svc) : RecordOk i a := by
+  unfold ptrAdditionals at h
+  split at h
+  · simp only [List.mem_append, List.mem_cons, List.mem_map, List.not_mem_nil, or_false] at h
+    rcases h with (hsub | rfl | rfl) | ⟨ip, hip, rfl⟩
+    · cases hs : svc.sub with
+      | none => simp [hs] at hsub
+      | some sub =>
+        simp only [hs, List.mem_cons, List.not_mem_nil, or_false] at hsub
+        subst hsub
+        exact Or.inl ⟨rfl, rfl, rfl⟩
+    · exact Or.inr (Or.inr (Or.inl ⟨rfl, rfl, rfl⟩))
+    · exact Or.inr (Or.inl ⟨rfl, rfl, rfl⟩)
+    · exact addrRecord_ok i svc v4 _ ip hip
+  · simp at h
+
+theorem addrRule_ok {i : MyIntf} {reg : Registry} {qname : BList} {qtype : Nat} {svc : Service} {a : RR}
+    (h : a ∈ addrRule i reg qname qtype svc) : RecordOk i a := by
+  unfold addrRule at h
+  split at h
+  · simp at h
+  · split at h
+    · simp at h
+    · simp only [List.mem_map, List.mem_append] at h
+      obtain ⟨ip, hip, rfl⟩ := h
+      rcases hip with hip | hip
+      · split at hip
+        · exact addrRecord_ok i svc true _ ip hip
+        · simp at hip
+      · split at hip
+        · exact addrRecord_ok i svc false _ ip hip
+        · simp at hip
+
+theorem instRule_ok {i : MyIntf} {qname : BList} {qtype : Nat} {o : Option Service} {a : RR}
+    (h : a ∈ instRule qname qtype o) : RecordOk i a := by
+  cases o with
+  | none => simp [instRule] at h
+  | some svc =>
+    simp only [instRule, List.mem_append] at h
+    rcases h with h | h
+    · split at h
+      · simp only [List.mem_cons, List.not_mem_nil, or_false] at h
+        subst h; exact Or.inr (Or.inr (Or.inl ⟨rfl, rfl, rfl⟩))
+      · simp at h
+    · split at h
+      · simp only [List.mem_cons, List.not_mem_nil, or_false] at h
+        subst h; exact Or.inr (Or.inl ⟨rfl, rfl, rfl⟩)
+      · simp at h
+
+theorem instAdditionals_ok {i : MyIntf} {v4 : Bool} {qtype : Nat} {o : Option Service} {a : RR}
+    (h : a ∈ instAdditionals i v4 qtype o) : RecordOk i a := by
+  cases o with
+  | none => simp [instAdditionals] at h
+  | some svc =>
+    simp only [instAdditionals] at h
+    split at h
+    · simp only [List.mem_map] at h
+      obtain ⟨ip, hip, rfl⟩ := h
+      exact addrRecord_ok i svc v4 _ ip hip
+    · simp at h
+
+theorem specAnswers_ok {services : List (BList × Service)} {i : MyIntf} {reg : Registry} {v4 : Bool} {q : Wire.Question}
+    {a : RR} (h : a ∈ specAnswers services i reg v4 q) : RecordOk i a := by
+  unfold specAnswers at h
+  split at h
+  · simp only [List.mem_flatMap] at h
+    obtain ⟨e, _, he⟩ := h
+    exact ptrRule_ok he
+  · simp only [List.mem_append] at h
+    rcases h with h | h
+    · split at h
+      · simp only [List.mem_flatMap] at h
+        obtain ⟨e, _, he⟩ := h
+        exact addrRule_ok he
+      · simp at h
+    · exact instRule_ok h
+
+theorem specAdditionals_ok {known : List Wire.Rec} {services : List (BList × Service)} {i : MyIntf} {reg : Registry}
+    {v4 : Bool} {q : Wire.Question} {a : RR} (h : a ∈ specAdditionals known services i reg v4 q) : RecordOk i a := by
+  unfold specAdditionals at h
+  split at h
+  · simp only [List.mem_flatMap] at h
+    obtain ⟨e, _, he⟩ := h
+    exact ptrAdditionals_ok he
+  · exact instAdditionals_ok h
+
+/-- the response of `handle_query` in terms of the declarative rule -/
+def specResp (s : State) (p : RxPkt) (i : MyIntf) (reg : Registry) : Resp :=
+  { answers := (p.msg.questions.flatMap (specAnswers s.services i reg p.srcV4)).filter (kept p.msg.answers),
+    additionals := p.msg.questions.flatMap (specAdditionals p.msg.answers s.services i reg p.srcV4) }
+
+theorem handleQuery_eq_spec (s : State) (now : Nat) (p : RxPkt) (i : MyIntf) (reg : Registry)
+    (hreg : alookup p.ifIdx s.registries = some reg) :
+    (handleQuery s now p i).2 =
+      if (specResp s p i reg).answers.isEmpty then []
+      else
+        (if i.hasFamily p.srcV4 then
+          [Out.send i.index p.srcV4 (if p.srcPort != MDNS_PORT then some p.src else none)
+            (responsePkt p.msg (p.srcPort != MDNS_PORT) (specResp s p i reg))]
+         else []) ++ notify s (.respond i.name) := by
+  have hspec := answerAll_spec p.msg.answers s.services i reg p.srcV4 p.msg.questions {}
+  have hresp : p.msg.questions.foldl (answerQuestion p.msg.answers s.services i reg p.srcV4) {} = specResp s p i reg := by
+    have h1 := hspec.1
+    have h2 := hspec.2
+    simp only [List.nil_append] at h1 h2
+    cases hr : p.msg.questions.foldl (answerQuestion p.msg.answers s.services i reg p.srcV4) {} with
+    | mk an ad =>
+      rw [hr] at h1 h2
+      simp only at h1 h2
+      simp [specResp, h1, h2]
+  unfold handleQuery
+  simp only [hreg, hresp]
+  split <;> rfl
+
+/-! ### concrete interfaces and services for the non-vacuity examples -/
+
+/-- `eth0`, index 2, 192.168.1.10/24 -/
+def eth0 : MyIntf := { name := [0x65, 0x74, 0x68, 0x30], index := 2, addrs := [([192, 168, 1, 10], [255, 255, 255, 0])] }
+
+/-- `eth0` with 192.168.1.10/24 and fe80::10/64 -/
+def eth0dual : MyIntf :=
+  { name := [0x65, 0x74, 0x68, 0x30], index := 2,
+    addrs := [([192, 168, 1, 10], [255, 255, 255, 0]),
+              ([0xfe, 0x80, 0, 0, 0, 0, 0, 0, 0, 0, 0, 0, 0, 0, 0, 0x10], [255, 255, 255, 255, 255, 255, 255, 255, 0, 0, 0, 0, 0, 0, 0, 0])] }
+
+/-- `web._http._tcp.local.` on `alpha.local.`, port 80, 192.168.1.20, empty TXT -/
+def web : Service :=
+  { ty := [0x5f,0x68,0x74,0x74,0x70,0x2e,0x5f,0x74,0x63,0x70,0x2e,0x6c,0x6f,0x63,0x61,0x6c,0x2e], sub := none,
+    fullname := [0x77,0x65,0x62,0x2e,0x5f,0x68,0x74,0x74,0x70,0x2e,0x5f,0x74,0x63,0x70,0x2e,0x6c,0x6f,0x63,0x61,0x6c,0x2e],
+    host := [0x61,0x6c,0x70,0x68,0x61,0x2e,0x6c,0x6f,0x63,0x61,0x6c,0x2e], port := 80, addrs := [[192, 168, 1, 20]],
+    txt := [0], probe := true, addrAuto := false }
+
+/-- `Web._http._tcp.local.` (mixed case) with subtype `_printer._sub._http._tcp.local.` on
+    `Beta.local.`, port 631, 192.168.1.20 and fe80::20, TXT `path=/` -/
+def webMixed : Service :=
+  { ty := [0x5f,0x68,0x74,0x74,0x70,0x2e,0x5f,0x74,0x63,0x70,0x2e,0x6c,0x6f,0x63,0x61,0x6c,0x2e],
+    sub := some [0x5f,0x70,0x72,0x69,0x6e,0x74,0x65,0x72,0x2e,0x5f,0x73,0x75,0x62,0x2e,
+                 0x5f,0x68,0x74,0x74,0x70,0x2e,0x5f,0x74,0x63,0x70,0x2e,0x6c,0x6f,0x63,0x61,0x6c,0x2e],
+    fullname := [0x57,0x65,0x62,0x2e,0x5f,0x68,0x74,0x74,0x70,0x2e,0x5f,0x74,0x63,0x70,0x2e,0x6c,0x6f,0x63,0x61,0x6c,0x2e],
+    host := [0x42,0x65,0x74,0x61,0x2e,0x6c,0x6f,0x63,0x61,0x6c,0x2e], port := 631,
+    addrs := [[192, 168, 1, 20], [0xfe, 0x80, 0, 0, 0, 0, 0, 0, 0, 0, 0, 0, 0, 0, 0, 0x20]],
+    txt := [6, 0x70, 0x61, 0x74, 0x68, 0x3d, 0x2f], probe := true, addrAuto := false }
+
 end Mdns.Responder
